@@ -22,8 +22,7 @@ def tyName : Ty → String
   | .any => "Any" | .unit => "Unit" | .undef => "Undef" | .dflt => "Default" | .scalar => "Scalar"
   | .scalarData => "ScalarData" | .numeric => "Numeric" | .data => "Data" | .richData => "RichData"
   | .str | .strSz _ | .strVal _ => "String"
-  | .bin => "Binary" | .int _ => "Integer" | .float _ _ => "Float" | .bool _ => "Boolean" | .tspan _ => "Timespan"
-  | .tstamp _ => "Timestamp"
+  | .bin => "Binary" | .int _ => "Integer" | .float _ _ => "Float" | .bool _ => "Boolean" | .tspan _ => "Timespan" | .tstamp _ => "Timestamp"
   | .enum _ _ => "Enum" | .pattern _ => "Pattern" | .regexp _ => "Regexp" | .coll _ => "Collection"
   | .array _ _ => "Array" | .hash _ _ _ => "Hash" | .tuple _ _ => "Tuple" | .struct _ => "Struct" | .variant _ => "Variant"
   | .optional _ => "Optional" | .notUndef _ => "NotUndef" | .typ _ => "Type" | .sensitive _ => "Sensitive"
@@ -31,6 +30,8 @@ def tyName : Ty → String
 
 def Atom.name : Atom → String
   | .ty t => tyName t
+  | .callable true _ => "Optional"
+  | .callable false _ => "Callable"
   | .typeSet => "TypeSet"
   | .deferred => "Object"     -- the meta type `Deferred` is an Object type (printed by name or as Object[{name => …}])
 
@@ -39,6 +40,7 @@ def expHeads (e : Exp) : List String :=
   let (e', optional) : Exp × Bool :=
     match e with
     | .atom (.ty (.optional t)) => (Exp.ofTy t, true)
+    | .atom (.callable true c) => (.atom (.callable false c), true)
     | e => (e, false)
   match e'.split with
   | .inr ms =>
